@@ -570,7 +570,9 @@ def check_C11(ctx):
         cls = 1 if mgr.lower().startswith('not assigned') else 9 if mgr.lower().startswith('retired') else TYPE_NAMES.get(ty)
         expect[d.encode()] = cls
     labels = list(expect.keys()) + [n.upper() for n in expect] + [bytes.fromhex(n) for n, l, t in tab]
-    labels += [n + b'x' for n in list(expect)[:400]] + [n[:-1] for n in list(expect)[:400] if len(n) > 1]
+    # near misses of EVERY row: one- and two-character extensions, a hyphenated extension, every row minus its last character, upper-cased extensions
+    labels += [n + b'x' for n in expect] + [n + b'xy' for n in expect] + [n + b'-shop' for n in list(expect)[::3]] + [n[:-1] for n in expect if len(n) > 1] + [(n + b'a').upper() for n in list(expect)[::2]]
+    labels += [b'x' + n for n in list(expect)[::2]] + [n + n for n in list(expect)[::5]]
     tl = ['T %s' % hx(l) for l in labels]
     corr(ctx, 'lookup(all rows + near misses)', tl, lambda ln, o: o, exhaustive=True, nontrivial=lambda ln, o: True,
          describe=lambda ln, a, b: 'is_tld differs from the lookup model over the dumped table: %s vs %s' % (a, b))
